@@ -1286,6 +1286,9 @@ def directed_defender(drv, rng, defender_tables, on_fail, stats, n):
                        Action(ActionType.FindServices, {"source_host": src, "target_host": IP("192.168.1.3")}),
                        Action(ActionType.BlockIP, {"source_host": src, "target_host": src, "blocked_host": IP("192.168.1.4")}),
                        Action(ActionType.ExfiltrateData, {"source_host": src, "target_host": c2, "data": Data("u", "d")})]
+            # half of the sessions: the fillers cannot be detected (only the repeats decide); the other half: every action
+            # is rolled 0, so each threshold decision on the window matters (and the window must hold what was really played)
+            filler_roll = 0.9 if i % 2 == 0 else 0.0
             for rep in range(5):
                 if sess.broken or sess.coord._episode_ends.get(PEER(0)):
                     break
@@ -1298,7 +1301,7 @@ def directed_defender(drv, rng, defender_tables, on_fail, stats, n):
                 for _ in range(rng.randint(5, 8)):
                     if sess.coord._episode_ends.get(PEER(0)):
                         break
-                    sess.do(ev_game(sess, 0, rng.choice(fillers), 0.9))
+                    sess.do(ev_game(sess, 0, rng.choice(fillers), filler_roll))
             stats["directed_defender"] = stats.get("directed_defender", 0) + 1
         finally:
             sess.close()
